@@ -203,6 +203,7 @@ def scenario_params(tier):
 
 def run(ctx):
     bound = 1 if ctx.quick else 2
+    in_core = (lambda params: True) if ctx.quick else H.core_scenarios(scenario_params)
     specs, deep_specs = [], []
     for params in scenario_params(ctx.tier):
         spinning = "spinner" in params["asyncio"] or "spinner" in params["trio"]
@@ -211,11 +212,11 @@ def run(ctx):
         deep = params["asyncio"] == "late" and params["trio"] == "none"
         pieces = specs if not (deep and ctx.quick) else deep_specs
         pieces.append({
-            "module": "checks.c02", "params": params, "bound": 2 if deep else bound,
+            "module": "checks.c02", "params": params, "bound": 2 if deep else (bound if in_core(params) else 1),
             "opts": {"spin_time": 0.05 if spinning else 0.0, "time_horizon": 40.0,
                      "drain": 4.0, "max_points": 8000, "free_switch_cost": 1,
                      "time_jump_cost": None if ctx.quick else 1},
-            "budget": (8000 if deep else 3000) if ctx.quick else 40000,
+            "budget": (8000 if deep else 3000) if ctx.quick else 30000,
         })
     for spec in deep_specs:
         specs += H.split(spec, 8)
